@@ -222,6 +222,8 @@ def launchConsumer (s : State) (c : CId) (env : LaunchEnv) : Option State :=
         | none => none
         | some (cid, chainOfClient, h) =>
           if chainOfClient != x.chain then none
+          -- the client of the named connection must not already be bound to another consumer
+          else if s.client2c.any (fun e => e.1 == cid && e.2 != c) then none
           else
             -- SetConsumerClientId: forward binding overwritten, reverse index moved
             let rev : List (String × CId) := match x.client with
@@ -244,10 +246,18 @@ def beginBlockLaunch (s : State) (envOf : CId → LaunchEnv) : State :=
 /-! ### stop and removal -/
 
 /-- StopAndPrepareForConsumerRemoval -/
+def stopRecord (t : Time) (x : Consumer) : Consumer := { x with phase := .stopped, removal := some t }
+
 def stopConsumer (s : State) (c : CId) : State :=
-  let x := s.get c
   let t := s.now + s.unbonding
-  { (s.set { x with phase := .stopped, removal := some t }) with removeQ := tqAppend s.removeQ t c }
+  { (s.set (stopRecord t (s.get c))) with removeQ := tqAppend s.removeQ t c }
+
+/-- what DeleteConsumerChain leaves of a consumer: the descriptive records only -/
+def clearRecord (x : Consumer) : Consumer :=
+  { x with client := none, genesis := none, ka := [], byaddr := [], prune := [], minpow := none,
+           evmin := 0, channel := none, commission := [], initH := none, acks := [], pend := [],
+           allow := [], deny := [], optin := [], valset := [], prio := [], removal := none,
+           qinfr := none, phase := .deleted }
 
 /-- DeleteConsumerChain in its cached context: `none` = failed -/
 def deleteConsumerChain (s : State) (c : CId) : Option State :=
@@ -265,11 +275,7 @@ def deleteConsumerChain (s : State) (c : CId) : Option State :=
           let ids := e.2.erase c
           if ids.isEmpty then none else some (e.1, ids)
       | none => s.infrQ
-    let x := { x with client := none, genesis := none, ka := [], byaddr := [], prune := [], minpow := none,
-                      evmin := 0, channel := none, commission := [], initH := none, acks := [], pend := [],
-                      allow := [], deny := [], optin := [], valset := [], prio := [], removal := none,
-                      qinfr := none, phase := .deleted }
-    some { (s.set x) with client2c := client2c, chan2c := chan2c, infrQ := infrQ }
+    some { (s.set (clearRecord x)) with client2c := client2c, chan2c := chan2c, infrQ := infrQ }
 
 def beginBlockRemove (s : State) : State :=
   let r := tqConsume s.removeQ s.now 200
@@ -308,27 +314,33 @@ structure CreateArgs where
   infr   : Option Infr
 deriving Repr, Inhabited
 
+/-- ValidateBasic and the handler's own checks of MsgCreateConsumer -/
+def createOK (a : CreateArgs) : Bool :=
+  validChainId a.chain &&
+  (match a.ps with | some p => p.ps.topN == 0 && validPS p.ps | none => true) &&
+  -- SetConsumerInitializationParameters: ValidateInitialHeight against the chain id's revision
+  (a.init.getD { spawn := 0, conn := "", rev := 1 }).rev == a.chainRev
+
+/-- the record written by MsgCreateConsumer before InitializeConsumer runs -/
+def createRecord (c : CId) (a : CreateArgs) : Consumer :=
+  let ini : InitArgs := a.init.getD { spawn := 0, conn := "", rev := 1 }
+  let p : PSArgs := a.ps.getD { ps := {}, allow := [], deny := [], prio := [] }
+  let infr : Infr := match a.infr with
+    | some i => { ds := i.ds.orElse (fun _ => defaultInfr.ds), dt := i.dt.orElse (fun _ => defaultInfr.dt) }
+    | none => defaultInfr
+  { id := c, phase := .registered, owner := a.sender, chain := a.chain, chainRev := a.chainRev,
+    hasInit := true, spawn := ini.spawn, conn := ini.conn, initRev := ini.rev,
+    ps := some p.ps, allow := normList p.allow, deny := normList p.deny, prio := normList p.prio,
+    infr := some infr }
+
 /-- MsgCreateConsumer (ValidateBasic + handler); `none` = rejected -/
 def createConsumer (s : State) (a : CreateArgs) : Option (State × CId) :=
-  if !validChainId a.chain then none
-  else if (match a.ps with | some p => p.ps.topN != 0 || !validPS p.ps | none => false) then none
-  else
+  if createOK a then
     let c := toString s.nextId
-    let ini : InitArgs := a.init.getD { spawn := 0, conn := "", rev := 1 }
-    if ini.rev != a.chainRev then none     -- SetConsumerInitializationParameters: ValidateInitialHeight
-    else
-      let p : PSArgs := a.ps.getD { ps := {}, allow := [], deny := [], prio := [] }
-      let infr : Infr := match a.infr with
-        | some i => { ds := i.ds.orElse (fun _ => defaultInfr.ds), dt := i.dt.orElse (fun _ => defaultInfr.dt) }
-        | none => defaultInfr
-      let x : Consumer := { id := c, phase := .registered, owner := a.sender, chain := a.chain, chainRev := a.chainRev,
-                            hasInit := true, spawn := ini.spawn, conn := ini.conn, initRev := ini.rev,
-                            ps := some p.ps, allow := normList p.allow, deny := normList p.deny, prio := normList p.prio,
-                            infr := some infr }
-      let s := { (s.set x) with nextId := s.nextId + 1 }
-      match initializeAndPrepare s c 0 with
-      | none => none
-      | some s => some (s, c)
+    match initializeAndPrepare { (s.set (createRecord c a)) with nextId := s.nextId + 1 } c 0 with
+    | none => none
+    | some s2 => some (s2, c)
+  else none
 
 structure UpdateArgs where
   sender   : String
@@ -455,5 +467,129 @@ def removeConsumer (s : State) (sender : String) (c : CId) : Option State :=
     else if sender != x.owner then none
     else if x.phase != .launched then none
     else some (stopConsumer s c)
+
+
+/-! ### channel handshake (ibc_module.go, keeper.go VerifyConsumerChain / SetConsumerChain) -/
+
+/-- a connection as the provider sees it: its client, and whether that client is a tendermint client -/
+structure ConnInfo where
+  client : String
+  isTM   : Bool
+deriving Repr, Inhabited
+
+/-- OnChanOpenTry: accepted iff ordered, the provider port, the consumer port, the supported version,
+    exactly one hop, whose client is the client recorded for exactly one consumer that has no CCV
+    channel yet -/
+def chanOpenTry (s : State) (ordered : Bool) (port cport ver : String) (hops : List String)
+    (connOf : String → Option ConnInfo) : Bool :=
+  ordered && port == "provider" && cport == "consumer" && ver == "1" &&
+  (match hops with
+   | [h] =>
+     (match connOf h with
+      | some ci =>
+        ci.isTM &&
+        (match s.client2c.find? (·.1 == ci.client) with
+         | some e =>
+           let x := s.get e.2
+           x.client == some ci.client && x.channel.isNone
+         | none => false)
+      | none => false)
+   | _ => false)
+
+/-- OnChanOpenInit / OnChanOpenAck: the provider never initiates -/
+def chanOpenInit : Bool := false
+
+/-- OnChanOpenConfirm → SetConsumerChain; `none` = error -/
+def chanOpenConfirm (s : State) (ch : String) (hopsOf : Option (List String))
+    (connOf : String → Option ConnInfo) : Option State :=
+  match hopsOf with
+  | some [h] =>
+    (match connOf h with
+     | some ci =>
+       if !ci.isTM then none
+       else match s.client2c.find? (·.1 == ci.client) with
+         | some e =>
+           let x := s.get e.2
+           if x.channel.isSome then none
+           else some { (s.set { x with channel := some ch, initH := some s.height }) with
+                        chan2c := s.chan2c.filter (fun p => p.1 != ch) ++ [(ch, e.2)] }
+         | none => none
+     | none => none)
+  | _ => none
+
+/-! ### EndBlock: CIS (id ↦ height, key pruning) then VSU (provider set, epoch: queue and send) -/
+
+structure GlobalVS where
+  lastProv : List CVal := []            -- LastProviderConsensusValSet
+  vsc2h    : List (Nat × Nat) := []
+deriving Repr, Inhabited
+
+/-- GetAllConsumersWithIBCClients: store iteration over `prefix|consumerId`, i.e. byte order of ids -/
+def consumersWithClients (s : State) : List Consumer :=
+  isort (fun a b => decide (a.id ≤ b.id)) (s.consumers.filter fun x => x.client.isSome)
+
+/-- PruneKeyAssignments -/
+def pruneKeys (x : Consumer) (now : Time) : Consumer :=
+  let due := x.prune.filter fun e => decide (e.1 ≤ now)
+  let keys := due.flatMap (·.2)
+  { x with prune := x.prune.filter (fun e => decide (now < e.1)),
+           byaddr := x.byaddr.filter fun b => !keys.contains b.1 }
+
+def setV2H (m : List (Nat × Nat)) (id h : Nat) : List (Nat × Nat) :=
+  if m.any (·.1 == id) then m.map fun e => if e.1 == id then (id, h) else e
+  else isort (fun a b => decide (a.1 ≤ b.1)) (m ++ [(id, h)])
+
+def endBlockCIS (s : State) (g : GlobalVS) : State × GlobalVS :=
+  let g := { g with vsc2h := setV2H g.vsc2h s.vscId (s.height + 1) }
+  let s := (consumersWithClients s).foldl (fun s x => s.set (pruneKeys (s.get x.id) s.now)) s
+  (s, g)
+
+/-- ProviderValidatorUpdates -/
+def providerValUpdates (s : State) (g : GlobalVS) : GlobalVS × List ValSet.Update :=
+  let next : List CVal := (s.bonded.take s.m).map fun v => { v := v, key := v, power := lastPower s.stk v, join := 0 }
+  ({ g with lastProv := next }, ValSet.diff (toVals g.lastProv) (toVals next))
+
+/-- QueueVSCPackets; `none` = error (the block fails) -/
+def queueVSC (s : State) : Option State :=
+  let r := (consumersWithClients s).foldl (fun (acc : Option State) x0 =>
+    match acc with
+    | none => none
+    | some s =>
+      let x := s.get x0.id
+      if x.phase != .launched then some s
+      else
+        match x.ps with
+        | none => none
+        | some _ =>
+        match computeNextValSet (epochInput s x x.valset) with
+        | none => none
+        | some out =>
+          let x := { x with optin := out.optin, valset := out.next,
+                            minpow := match out.minpow with | some m => some m | none => x.minpow }
+          let x := if out.updates.isEmpty then x
+                   else { x with pend := x.pend ++ [{ id := s.vscId, updates := out.updates, acks := x.acks }], acks := [] }
+          some (s.set x)) (some s)
+  match r with
+  | none => none
+  | some s => some { s with vscId := s.vscId + 1 }
+
+/-- SendVSCPackets with a healthy channel: everything pending is sent, in order, and dropped -/
+def sendVSC (s : State) : State × List (CId × Packet) :=
+  (consumersWithClients s).foldl (fun (acc : State × List (CId × Packet)) x0 =>
+    let x := acc.1.get x0.id
+    if x.phase != .launched || x.channel.isNone then acc
+    else (acc.1.set { x with pend := [] }, acc.2 ++ x.pend.map fun p => (x.id, p))) (s, [])
+
+/-- EndBlock of the provider module; `none` = error -/
+def endBlock (s : State) (g : GlobalVS) : Option (State × GlobalVS × List ValSet.Update × List (CId × Packet)) :=
+  let r := endBlockCIS s g
+  let pv := providerValUpdates r.1 r.2
+  if r.1.height % r.1.epoch == 0 then
+    match queueVSC r.1 with
+    | none => none
+    | some s2 =>
+      let sent := sendVSC s2
+      some (sent.1, pv.1, pv.2, sent.2)
+  else some (r.1, pv.1, pv.2, [])
 
 end ICS.Provider
